@@ -209,8 +209,10 @@ def judge_vector(chk, v, before, fp_before, o, model, label, spec, stratum):
 		return
 	sch = after[1]
 	repkind = sch[0] if sch else object
-	exp = [M.widen(x, repkind) for x in model["expected"]]
-	if not M.eq_list([M.widen(x, repkind) for x in after[0]], exp):
+	# numbers compare exactly across int / float / complex in Python, so only date-in-datetime is compared modulo the documented widening
+	wd = (lambda x: M.widen(x, repkind)) if repkind is datetime else (lambda x: x)
+	exp = [wd(x) for x in model["expected"]]
+	if not M.eq_list([wd(x) for x in after[0]], exp):
 		chk.fail("the vector holds exactly what Python list assignment would produce", f"assign/contents/{label}/{'+'.join(sorted(set(model.get('classes') or ())))}",
 			f"{spec!r}: vector {short(after[0], 200)} vs list model {short(exp, 200)}")
 		return
@@ -705,7 +707,55 @@ def run_own_source(chk, spec):
 			f"{spec!r}: table now {got}, list model {model}")
 
 
-RUNNERS = {"own_source": run_own_source, "badmask": run_badmask, "selfmask": run_selfmask, "sequence": run_sequence, "overflow": run_overflow, "assign": run_assign, "iterfault": run_iterfault, "table_assign": run_table_assign, "rename": run_rename}
+def run_cross_kind_equal(chk, spec):
+	"""values that are EQUAL but of different kinds (3 and 3.0, 1 and True, -2 and -2.0) are different values to the promotion rule, whatever was validated
+	earlier in the process"""
+	first, second = spec["first"], spec["second"]
+	a = Vector(list(spec["a"]))
+	call(a.__setitem__, 0, first)      # an unrelated, valid write of the equal value of the narrower kind
+	b = Vector(list(spec["b"]), name="b")
+	before = snapshot(b)
+	fpb = call(b.fingerprint).value
+	key = build_key(spec["key"])
+	value, vlist, scalar = build_value(spec["vform"], spec["value"])
+	model = model_outcome(list(spec["b"]), before[1], key, value, vlist, scalar)
+	o = call(b.__setitem__, key, value)
+	judge_vector(chk, b, before, fpb, o, model, f"cross-kind/{spec['key'][0]}/{spec['vform']}", spec, "assign-ok" if model["outcome"] not in ("fail", "typefail") else "assign-fault")
+
+
+def run_mask_reuse(chk, spec):
+	"""one mask VECTOR used as a key, edited in place, and used as a key again: each write addresses the positions the mask marks at that moment"""
+	vals = list(spec["values"])
+	n = len(vals)
+	v = Vector(list(vals))
+	m = Vector(list(spec["mask"]))
+	cur = list(spec["mask"])
+	model = list(vals)
+	chk.judged("assign-ok", ("mask-reuse", n, tuple(spec["flips"])))
+	for step, flip in enumerate([None] + list(spec["flips"])):
+		if flip is not None:
+			w = call(m.__setitem__, flip, not cur[flip])
+			if not w.ok:
+				chk.skip("mask-reuse-mask-write-refused")
+				return
+			cur[flip] = not cur[flip]
+		k = sum(1 for x in cur if x)
+		newv = 100 + step
+		form = spec["vform"]
+		value = newv if form == "scalar" else [newv] * k
+		o = call(v.__setitem__, m, value)
+		for i, f in enumerate(cur):
+			if f:
+				model[i] = newv
+		if not o.ok:
+			chk.fail("a valid assignment is carried out", f"assign/raises/mask-vector-reused/{type(o.exc).__name__}", f"{spec!r}: step {step}: mask now {cur}; v[mask] = {value!r} raised {o!r}")
+			return
+		if list(v._underlying) != model:
+			chk.fail("the vector holds exactly what Python list assignment would produce", "assign/contents/mask-vector-reused", f"{spec!r}: step {step}: mask now {cur}; vector {list(v._underlying)} vs model {model}")
+			return
+
+
+RUNNERS = {"cross_kind_equal": run_cross_kind_equal, "mask_reuse": run_mask_reuse, "own_source": run_own_source, "badmask": run_badmask, "selfmask": run_selfmask, "sequence": run_sequence, "overflow": run_overflow, "assign": run_assign, "iterfault": run_iterfault, "table_assign": run_table_assign, "rename": run_rename}
 
 COLKINDS = ["bool", "int", "float", "complex", "str", "date", "datetime", "object", "bytes"]
 
@@ -803,6 +853,22 @@ def run(chk):
 				for targets in ([order[0], order[1]], [order[1], order[0]], [order[0], order[1], order[2]], [order[2], order[0]], [order[1]]):
 					chk.case("selfmask", {"kind": kind, "cols": cols3, "names": nm, "selector": order[0], "targets": targets, "value": value,
 						"via": rng.choice(["cols", "name"]), "colform": rng.choice(["names", "ints", "tuple"])}, "table-assign-self-selector")
+	for first, second, acol, bcol in ((3, 3.0, [1, 2], [5, 6, 7]), (-2, -2.0, [0, 1], [5, 6]), (1, True, [4, 5], [False, True]), (1, 1.0, [1, 2], [True, False]), (2, complex(2, 0), [1, 2], [5, 6]), (0, 0.0, [1], [7, 8]),
+			(2 ** 53, float(2 ** 53), [1], [3, 4])):
+		for keyspec, vform in ((("int", 1), "scalar"), (("slice", (0, 2, None)), "list"), (("idx-list", [0, 1]), "list"), (("mask-list", [True] + [False] * (len(bcol) - 1)), "scalar")):
+			value = second if vform == "scalar" else [second, first]
+			chk.case("cross_kind_equal", {"first": first, "second": second, "a": acol, "b": bcol, "key": keyspec, "vform": vform, "value": value}, "assign-cross-kind-equal")
+	# batches in which a narrower value sits next to the one that forces the promotion: the narrower one is stored as given
+	for vals, batch in (([1, 2, 3], [2 ** 53 + 1, 1.5]), ([1, 2, 3], [1.5, 2 ** 53 + 1]), ([1, 2, 3], [10 ** 17 + 1, 2.5, 3]), ([1, 2], [True, 2.5]), ([date(2020, 1, 1), date(2020, 1, 2)], [date(2021, 5, 5), datetime(2020, 1, 1, 6)])):
+		for keyspec in (("slice", (0, len(batch), None)), ("idx-list", list(range(len(batch))))):
+			if len(batch) <= len(vals):
+				for vform in ("list", "tuple", "vector"):
+					chk.case("assign", {"values": vals, "key": keyspec, "vform": vform, "value": batch}, "assign-batch-narrow-next-to-wide")
+	for _ in range(60 if chk.quick() else 400):
+		n = rng.choice([2, 3, 4])
+		mask = [rng.random() < 0.5 for _ in range(n)]
+		flips = [rng.randrange(n) for _ in range(rng.choice([1, 2, 3]))]
+		chk.case("mask_reuse", {"values": [rng.choice([1, 2, 3]) for _ in range(n)], "mask": mask, "flips": flips, "vform": rng.choice(["scalar", "list"])}, "assign-mask-reuse")
 	import itertools as _it
 	for c in (2, 3):
 		for perm in _it.permutations(range(c)):
